@@ -16,6 +16,7 @@ the host's view (the status clause is `C06_values_and_status`), non-interference
 spectators. The host's side is `C06_host_rows` (Proofs/SpecHost.lean): what
 `send_confirmed_inputs_to_spectators` offers.
 -/
+import GgrsModel.Model.Inventory
 import GgrsModel.Model.Spectator
 import GgrsModel.Proofs.Monad
 import GgrsModel.Proofs.SpecRing
